@@ -22,6 +22,10 @@ Translated (see the gen_* functions at the bottom):
                                   and their indices, status chain of the backward pass, v2m initialisation, forward
                                   loop body (si, dt, emitted segment, v2m update)
 
+Widened (same rules, same entry point — `main()` below also writes these files): tools/gen_logic2.py translates
+detail/diff_impl.hpp, optim/tr_solver.hpp, spline/detail/cumulative_spline_impl.hpp, spline/detail/spline_impl.hpp and the generic
+routines of detail/lie_group_sparse_impl.hpp into SmoothModel/Gen/LogicSrcC08|C10|C11|C12|C19.lean (ties: SmoothProps/SrcTieLogicC*.lean).
+
 Supported C++ subset — everything else is a HARD ERROR naming the construct (never silently skipped):
   statements:  [static|constexpr|const] T x = e; | T x{e}; | T x;   x = e; x op= e; ++x;   using …;
                if / else if / else (also `if constexpr` when the spec fixes the condition), while (→ a recursive
@@ -61,8 +65,9 @@ def strip_comments(s):
     return '\n'.join(l for l in s.split('\n') if not l.lstrip().startswith('#'))
 
 
-def lex(s):
-    """-> list of (kind, val); kinds: num id str op"""
+def lex(s, extra=()):
+    """-> list of (kind, val); kinds: num id str op.  `extra`: further identifiers whose `<…>` is a template argument list"""
+    TEMPLATE_IDS = globals()['TEMPLATE_IDS'] | set(extra)
     out, i, n = [], 0, len(s)
     while i < n:
         c = s[i]
@@ -1986,18 +1991,24 @@ def generate(repo):
 def main():
     repo = sys.argv[1] if len(sys.argv) > 1 else '/repo'
     outp = sys.argv[2] if len(sys.argv) > 2 else os.path.join(os.path.dirname(os.path.abspath(__file__)), '..', 'lean', 'SmoothModel', 'Gen', 'LogicSrc.lean')
+    import gen_logic as GL          # one module object for the classes shared with gen_logic2 (this file may run as __main__)
+    import gen_logic2
     try:
-        txt = generate(repo)
-    except TrErr as ex:
+        files = {os.path.basename(outp): GL.generate(repo)}
+        files.update(gen_logic2.generate_all(repo))      # LogicSrcC08.lean, … next to LogicSrc.lean
+    except GL.TrErr as ex:
         print('gen_logic: cannot translate the current source:', ex)
         sys.exit(1)
-    old = open(outp).read() if os.path.exists(outp) else None
-    if old != txt:
-        open(outp, 'w').write(txt)
-        print('gen_logic: wrote', os.path.normpath(outp))
-    else:
-        print('gen_logic: unchanged', os.path.basename(outp))
+    for fn, txt in files.items():
+        p = os.path.join(os.path.dirname(outp), fn)
+        old = open(p).read() if os.path.exists(p) else None
+        if old != txt:
+            open(p, 'w').write(txt)
+            print('gen_logic: wrote', os.path.normpath(p))
+        else:
+            print('gen_logic: unchanged', fn)
 
 
 if __name__ == '__main__':
+    sys.path.insert(0, os.path.dirname(os.path.abspath(__file__)))
     main()
